@@ -124,7 +124,9 @@ def canon(obj, RoutingTree=None, depth=0):
         return (cls, tuple(canon(x, RoutingTree, depth + 1) for x in obj))
     if hasattr(obj, "__int__") and cls in ("Routes", "Links"):
         return (cls, int(obj))
-    if cls == "Machine":
+    if cls == "Machine" or any(b.__name__ == "Machine" and
+                               b.__module__.startswith("rig.")
+                               for b in type(obj).__mro__):
         return ("Machine", obj.width, obj.height,
                 canon(obj.chip_resources, RoutingTree, depth + 1),
                 canon(obj.chip_resource_exceptions, RoutingTree, depth + 1),
